@@ -56,14 +56,6 @@ Definition sc_request (c : scase) : request :=
 (* md5 oracle: only ever asked about prefixes of the body *)
 Definition md5_of_tab (tab : list N) (l : list N) : N := nth (length l) tab 0.
 
-(* which known finding the input falls under *)
-Definition trigger_of (rq : request) (pre : option entry) : option N :=
-  if read_err_trigger rq then Some 0
-  else if append_trigger rq pre then Some 1
-  else if inline_trunc_trigger rq then Some 2
-  else if chunk_size_trigger rq then Some 3
-  else None.
-
 (* the property, judged on what the implementation did *)
 Definition spec_small (c : scase) : bool :=
   let must_fail := is_err (sc_end c) || si_upfail_hit c in
@@ -92,7 +84,7 @@ Definition check_small (c : scase) : outcome :=
                          | _ => ur_err (upload_of (sc_request c))
                          end) (si_upfail_hit c);
      o_prop := spec_small c;
-     o_trig := trigger_of (sc_request c) (sc_pre c);
+     o_trig := None;
      o_nontrivial := status_eqb (si_status c) Created && negb (is_nil (sc_body c)) |}.
 
 (* ================= Big cases ================= *)
@@ -133,26 +125,30 @@ Definition md5_at (tab : list (N * N)) (n : N) : N :=
   | None => 4294967296 + n
   end.
 
-Definition bc_cs (b : bcase) : Z := chunk_size_of (bc_maxmb_q b) (bc_maxmb_opt b).
+Definition s_extent (cks : list (N * N * N)) : N :=
+  fold_left (fun m c => N.max m (fst (fst c) + snd (fst c))) cks 0.
 
-(* handle_write on summaries: the plan (lengths) of the upload loop, then saveMetaData *)
+(* handle_write on summaries: autoChunk's chunk size (None = 400), the plan
+   (lengths) of the upload loop, then saveMetaData *)
 Definition big_expected (b : bcase) : status * option sentry * bool :=
-  match bc_method b with
-  | PostRaw => (Failed, bc_pre b, false)
-  | _ =>
-    let p := plan_upload (bc_cs b) (bc_limit b) (negb (bc_append b)) (bc_etc b)
+  match auto_chunk_size (bc_maxmb_q b) (bc_maxmb_opt b), bc_method b with
+  | None, _ => (Failed, bc_pre b, false)
+  | Some _, PostRaw => (Failed, bc_pre b, false)
+  | Some cs, _ =>
+    let p := plan_upload cs (bc_limit b) (negb (bc_append b)) (bc_etc b)
                          (bc_len b) (bc_end b) (bc_upfail b) in
-    if pl_err p then (Failed, bc_pre b, true)
+    if pl_err p || pl_rerr p then (Failed, bc_pre b, pl_err p)
     else
       match (if bc_append b then bc_pre b else None) with
       | Some e =>
           match s_inline e with
           | Some _ => (Failed, bc_pre b, false)
           | None =>
+            let at_ := N.max (s_extent (s_chunks e)) (s_size e) in   (* entry.Size() *)
             (Created,
-             Some {| s_size := s_size e + pl_off p; s_inline := None;
+             Some {| s_size := at_ + pl_off p; s_inline := None;
                      s_chunks := s_chunks e ++
-                       map (fun c => (fst c + s_size e, snd c,
+                       map (fun c => (fst c + at_, snd c,
                                       slice_crc (bc_slices b) (fst c) (fst c + snd c))) (pl_chunks p);
                      s_md5 := None |}, false)
           end
@@ -166,9 +162,6 @@ Definition big_expected (b : bcase) : status * option sentry * bool :=
                    s_md5 := Some (md5_at (bc_md5tab b) (pl_hashed p)) |}, false)
       end
   end.
-
-Definition s_extent (cks : list (N * N * N)) : N :=
-  fold_left (fun m c => N.max m (fst (fst c) + snd (fst c))) cks 0.
 
 (* the chunks tile [base+from, base+len) in order, each holding the body bytes of its own position *)
 Fixpoint tiles_ok (tab : list (N * N * N)) (base from len : N) (cks : list (N * N * N)) : bool :=
@@ -216,26 +209,12 @@ Definition spec_big (b : bcase) : bool :=
       end
   end.
 
-(* the triggers, on the summary *)
-Definition big_trigger (b : bcase) : option N :=
-  let cs := bc_cs b in
-  if is_err (bc_end b) then Some 0
-  else if bc_append b &&
-          match bc_pre b with
-          | Some e0 => match s_inline e0 with None => s_size e0 <? s_extent (s_chunks e0) | Some _ => false end
-          | None => false
-          end then Some 1
-  else if negb (bc_append b) && ((cs <? bc_limit b)%Z || bc_etc b) && (cs <? Z.of_N (bc_len b))%Z && (0 <? cs)%Z
-       then Some 2
-  else if (cs <=? 0)%Z && (0 <? bc_len b) then Some 3
-  else None.
-
 Definition check_big (b : bcase) : outcome :=
   let '(st, post, uerr) := big_expected b in
   {| o_corr := status_eqb st (bi_status b) && opt_eqb sentry_eqb post (bi_post b) &&
                Bool.eqb uerr (bi_upfail_hit b);
      o_prop := spec_big b;
-     o_trig := big_trigger b;
+     o_trig := None;
      o_nontrivial := status_eqb (bi_status b) Created && (0 <? bc_len b) |}.
 
 (* ================= cases ================= *)
